@@ -407,8 +407,8 @@ fn adc_mul_limbs(lhs: &[Limb], rhs: &[Limb], out: &mut [Limb]) -> Limb {
             j += 1;
         }
 
-        carry = carry.wrapping_add(carry2);
-        (out[i + j], carry) = out[i + j].adc(Limb::ZERO, carry);
+        // `carry + carry2` can exceed a limb when `out` already holds data: add both with carry propagation
+        (out[i + j], carry) = out[i + j].adc(carry2, carry);
         i += 1;
     }
 
